@@ -81,6 +81,11 @@ BRIDGE_NOTE = (" + PyO3 boundary replay: chains replayed call by call through th
                "StrategyForPython with real files) and the real history_comparisons.py, every call result / query result / returned "
                "history compared with the Rust binding's")
 _BRIDGE = {
+    "C01": {"pybridge_evaluations": 1000},
+    "C08": {"pybridge_evaluations": 1000, "pybridge_faulty_evaluations": 300},
+    "C09": {"pybridge_evaluations": 1000, "pybridge_faulty_evaluations": 300},
+    "C12": {"pybridge_evaluations": 1000},
+    "C18": {"pybridge_evaluations": 1000, "pybridge_histories_equal": 1000},
     "C03": {"pybridge_evaluations": 1000},
     "C04": {"pybridge_evaluations": 1000},
     "C06": {"pybridge_evaluations": 1000, "pybridge_faulty_evaluations": 300},
